@@ -622,6 +622,23 @@ class FunctionParser(BaseParser):
         parsed_args = []
         parsed_keys = []
 
+        if args and kwargs:
+            # a parameter bound by position cannot be given again by keyword (under any key it accepts): Python's own
+            # answer, given before either lookup strategy walks the keywords (one dropped it silently, the other
+            # passed it on as an additional key)
+            bound = {
+                id(field): field for index, field in self.positional_fields.items()
+                if index < len(args) and not field.positional_only
+            }
+            if bound:
+                for key in kwargs:
+                    field = self.get_field(str(key))
+                    if field is not None and id(field) in bound:
+                        raise TypeError(
+                            f"{getattr(self.obj, '__qualname__', self.name)}() "
+                            f"got multiple values for argument {repr(field.attname)}"
+                        )
+
         # 1. parse giving args, including the positional args
         for i, arg in enumerate(args):
             if self.pos_var and i >= self.pos_var_index:
